@@ -847,8 +847,9 @@ func (r *runner) sweeps(c *Case, kind string, v filesystem.ICloseableFS, entries
 			continue
 		}
 		panicked := ""
+		bound := bind(v, m)
 		for i := range tuples {
-			res := invoke(v, m, tuples[i], descr[i])
+			res := invoke(bound, m, tuples[i], descr[i])
 			r.st.calls++
 			if c.Deep {
 				r.st.callOutcomes[kind+":live:"+m.Name+":"+errKind(res.Err)]++
@@ -892,11 +893,12 @@ func (r *runner) sweeps(c *Case, kind string, v filesystem.ICloseableFS, entries
 		if err != nil {
 			continue
 		}
+		bound := bind(v, m)
 		for i := range tuples {
 			if !distinctStrings(tuples[i]) {
 				continue
 			}
-			res := invoke(v, m, tuples[i], descr[i])
+			res := invoke(bound, m, tuples[i], descr[i])
 			r.st.calls++
 			if c.Deep {
 				r.st.callOutcomes[kind+":closed:"+m.Name+":"+errKind(res.Err)]++
